@@ -285,7 +285,17 @@ func c18(c *Ctx) {
 	R.Floor("C18.restart-gate", ngate, 1)
 	// want only for DEAD/CANCELED; ready only for DONE/CANCELED/DEAD: check via the If conditions that dominate the constant stores
 	c18mapGate(c, gc, "want", []string{DEAD, CANCELED})
-	c18ready(c, gc, []string{DONE, CANCELED, DEAD})
+	// states that a node can take while its runnable is still executing (set by the runnable's own
+	// Signal call rather than by processDied after the goroutine returned)
+	early := map[string]bool{}
+	for _, s := range storesToField(p, stateF) {
+		st := s.Instr.(*ssa.Store)
+		if isFreshAlloc(st.Addr) || s.Fn == died || s.Fn == reset {
+			continue
+		}
+		early[facts.Term(st.Val)] = true
+	}
+	c18ready(c, gc, []string{DONE, CANCELED, DEAD}, early)
 	// reset() is called only on nodes of `can`
 	for _, s := range callsTo(p, reset) {
 		if s.Fn == gc {
@@ -473,7 +483,7 @@ func reachesCall(instr ssa.Instruction, fn *ssa.Function) bool {
 // The value stored is expanded into the disjunction of control paths that make it true; every
 // disjunct must (a) carry a state fact of the accepted set and (b) leave a loop over n.children by
 // exhaustion, where every completed iteration of that loop has the fact ready[child.dn()].
-func c18ready(c *Ctx, fn *ssa.Function, states []string) {
+func c18ready(c *Ctx, fn *ssa.Function, states []string, early map[string]bool) {
 	p, R := c.Node(), c.R
 	loops := facts.LoopsOf(fn)
 	n := 0
@@ -490,12 +500,19 @@ func c18ready(c *Ctx, fn *ssa.Function, states []string) {
 		}
 		for k, conj := range disj {
 			okState, okKids := false, false
+			earlyState, notRunning := "", false
 			for _, f := range conj {
 				a := f.Atom
 				for _, st := range states {
 					if strings.HasPrefix(a, st+" == ") && strings.HasSuffix(a, ".state") || strings.HasSuffix(a, ".state == "+st) {
 						okState = true
+						if early[st] {
+							earlyState = st
+						}
 					}
+				}
+				if strings.HasPrefix(a, "!") && strings.HasSuffix(a, ".running") {
+					notRunning = true
 				}
 				// the state test factored into a predicate method that is true only for those states
 				if cl, isCall := f.Cond.(*ssa.Call); isCall && f.Pol {
@@ -524,6 +541,9 @@ func c18ready(c *Ctx, fn *ssa.Function, states []string) {
 			}
 			if !okState {
 				bad = append(bad, fmt.Sprintf("way %d to true has no DONE/CANCELED/DEAD state fact: %s", k, facts.Join(conj)))
+			}
+			if earlyState != "" && !notRunning {
+				bad = append(bad, fmt.Sprintf("way %d to true accepts state %s, which the runnable sets itself while it is still executing (Signal), without the fact that its goroutine has returned: the subtree is reset and started again while the old instance of this service is still running (two instances at once; its late exit is then booked on the new node)", k, earlyState))
 			}
 			if !okKids {
 				bad = append(bad, fmt.Sprintf("way %d to true does not require ready[child] for every child (only the direct children's own state, or nothing, is consulted): %s", k, facts.Join(conj)))
